@@ -21,6 +21,22 @@ def main(argv):
     ctx.notes["coq_build"] = dict(rebuilt=coq["rebuilt"], seconds=round(coq["seconds"], 1), ok=coq["ok"])
     if tier == "thorough" and coq["ok"]:
         ctx.notes["coqchk"] = build.coqchk(pid)
+    if coq["ok"]:
+        try:
+            g = build.golden()
+            ctx.notes["golden_assets_checked_in_coq"] = g["results"] if g["ok"] else dict(error=g["log"][-500:])
+            for asset, ok in (g["results"] if g["ok"] else {}).items():
+                if not ok and pid in build.GOLDEN_PROPS.get(asset.split("-")[0].split(".")[0], []):
+                    ctx.violation("golden:" + asset, "the repository's expected output %s is not what the model computes (Gen/Golden.v, evaluated by Coq)" % asset,
+                                  dict(kind="golden", asset=asset), found_input=False)
+        except Exception as e:
+            ctx.notes["golden_assets_checked_in_coq"] = dict(error=repr(e))
+        try:
+            sf = build.source_facts()
+            ctx.notes["source_constants_vs_model"] = dict(equal=sorted(n for n, v in sf["results"].items() if v), differ=sorted(n for n, v in sf["results"].items() if not v), not_found=sf["missing"])
+            ctx.changed_constants = [n for n, v in sf["results"].items() if not v and pid in sf["props"].get(n, [])]
+        except Exception as e:
+            ctx.notes["source_constants_vs_model"] = dict(error=repr(e))
     rule = dict(rule="")
     # 2. the implementation, built from /repo's current working tree
     try:
@@ -36,6 +52,11 @@ def main(argv):
         except Exception as e:
             traceback.print_exc()
             ctx.violation("harness-error", "the check itself failed: %r" % (e,), dict(kind="harness", trace=traceback.format_exc()), found_input=False)
+    if getattr(ctx, "changed_constants", None) and not ctx.violations:
+        # a constant the theorems of this property are stated about no longer has the value the model (and hence the proofs) use,
+        # and the correspondence above found no input on which the behaviour differs
+        ctx.violation("constant-changed:" + ",".join(ctx.changed_constants), "source constant(s) %s differ from the model's: the theorems are about other values" % ctx.changed_constants,
+                      dict(kind="constants", constants=ctx.changed_constants), found_input=False)
     if not coq["ok"] or (proof["obligations"] and proof["discharged"] != proof["obligations"]):
         # a proof obligation no longer checks: the property is no longer shown to hold. The property-level checks above were the
         # search for a failing input; if they found none, say so.
